@@ -45,6 +45,9 @@ package tengo
 //@ immutable Compiler.trace {C04}
 
 // structural invariants established by the only constructors
+// global slots are Go nil until the script (or the host) assigns them: readers must not assume a value
+//@ nilable Compiled.globals
+//@ nilable VM.globals
 //@ fieldinv SymbolTable.store has_store{C04,C11}: v != nil
 //@ fieldinv Compiler.trace tracing_off{C04,C02}: v == nil
 //@ fieldinv Compiler.compiledModules has_cache{C13}: v != nil
